@@ -507,6 +507,60 @@ func effectFacts(prog *ssa.Program, sp *ssa.Package) string {
 				sort.Strings(cl)
 				fmt.Fprintf(&sb, "/-- functions of the nutsdb packages called directly from DB.Merge's body -/\ndef mergeCalls : List String := [%s]\n", strings.Join(cl, ", "))
 			}
+			if ms.At(i).Obj().Name() == "Backup" {
+				// Backup's shape: what its own body does (calls, *DB fields touched) outside the function literal it
+				// hands to db.View, and what that literal calls. "Everything under the read lock" = the body is
+				// nothing but the call of View.
+				fn := prog.MethodValue(ms.At(i))
+				calls := func(f *ssa.Function) (cs, fs []string) {
+					seen := map[string]bool{}
+					for _, b := range f.Blocks {
+						for _, in := range b.Instrs {
+							switch x := in.(type) {
+							case *ssa.FieldAddr:
+								if typeName(x.X.Type()) == "DB" {
+									st := x.X.Type().Underlying().(*types.Pointer).Elem().Underlying().(*types.Struct)
+									n := "DB." + st.Field(x.Field).Name()
+									if !seen["f:"+n] {
+										seen["f:"+n] = true
+										fs = append(fs, leanStr(n))
+									}
+								}
+							case ssa.CallInstruction:
+								n := "dynamic"
+								if cf := x.Common().StaticCallee(); cf != nil {
+									n = cf.Name()
+									if cf.Signature.Recv() != nil {
+										n = typeName(cf.Signature.Recv().Type()) + "." + n
+									} else if cf.Pkg != nil {
+										n = cf.Pkg.Pkg.Name() + "." + n
+									}
+								} else if x.Common().IsInvoke() {
+									n = "invoke." + x.Common().Method.Name()
+								}
+								if strings.HasPrefix(n, "nutsdb.verif") || strings.HasPrefix(n, "verif") {
+									continue
+								}
+								if !seen["c:"+n] {
+									seen["c:"+n] = true
+									cs = append(cs, leanStr(n))
+								}
+							}
+						}
+					}
+					sort.Strings(cs)
+					sort.Strings(fs)
+					return
+				}
+				oc, of := calls(fn)
+				var ic []string
+				for _, af := range fn.AnonFuncs {
+					c, _ := calls(af)
+					ic = append(ic, c...)
+				}
+				sort.Strings(ic)
+				fmt.Fprintf(&sb, "/-- DB.Backup: calls and *DB fields of its own body outside the function literals, and the calls made by the literals (the one handed to db.View) -/\ndef backupShape : List String × List String × List String := ([%s], [%s], [%s])\n", strings.Join(oc, ", "), strings.Join(of, ", "), strings.Join(ic, ", "))
+			}
 			if ms.At(i).Obj().Name() == "reWriteData" {
 				// the rewrite transaction: which accesses to the database (fields of *DB, calls of nutsdb
 				// functions) are NOT dominated by the call of db.Begin, i.e. can happen without the write lock
